@@ -23,7 +23,7 @@ RULE = ("seeded base circuits: one-qubit random Rz.Ry.Rz products and named gate
 MANDATORY = ["li_complex_nonsymmetric", "mle_complex_nonsymmetric", "gate_fidelity_other_target",
              "gate_fidelity_same_target", "two_qubit_li", "two_qubit_entangling", "direct_herald",
              "tomography_object_reused_after_edit", "unnormalised_counts", "experiment_without_qubit_post_selection",
-             "data_outside_the_qubit_subspace_refused"]
+             "data_outside_the_qubit_subspace_refused", "gate_fidelity_target_close_to_V"]
 DECIDING = ["li_postconditions", "mle_postconditions", "gate_fidelity_postconditions", "callback_pairs_answered",
             "earlier_objects_rechecked"]
 BUDGET = {"quick": 40, "thorough": 600}
@@ -295,8 +295,13 @@ def run(ctx):
                                   mechanism="mle_fidelity" + (":nonsymmetric" if complex_nonsym else ""),
                                   monitor="MLEProcessTomography.process post-condition")
             else:
-                kind = str(rng.choice(["same", "haar", "transpose", "conj", "same"]))
-                target = {"same": v, "haar": haar(rng, d), "transpose": v.T, "conj": v.conj()}[kind]
+                kind = str(rng.choice(["same", "haar", "transpose", "conj", "same", "near"]))
+                # "near": V followed by a small z-rotation of the first qubit - fidelity 1 - 2e-4 ... 1 - 2e-7, not 1
+                th_ = float(rng.choice([3e-2, 1e-2, 3e-3, 1e-3]))
+                near_ = v @ np.kron(np.diag([np.exp(-0.5j * th_), np.exp(0.5j * th_)]), np.eye(d // 2))
+                target = {"same": v, "haar": haar(rng, d), "transpose": v.T, "conj": v.conj(), "near": near_}[kind]
+                if kind == "near":
+                    ctx.bucket("gate_fidelity_target_close_to_V")
                 if kind == "same" and rng.random() < 0.5:
                     target = target * np.exp(1j * rng.uniform(0, 6.28))      # a global phase is irrelevant
                 case["target"] = kind
